@@ -28,7 +28,9 @@ fn main() {
                     gen_instr::gen(&[gen_instr::Class::Stack, gen_instr::Class::CallRet], tier, seed, 40, 400, &mut out);
                     gen_prog::gen_stack_programs(tier, seed ^ 0x404, &mut out);
                 }
-                "C05" => gen_instr::gen_filtered(&[gen_instr::Class::Lea, gen_instr::Class::Data], tier, seed ^ 0x505, 6, 40, true, &mut out),
+                "C05" => gen_instr::gen_filtered(
+                    &[gen_instr::Class::Lea, gen_instr::Class::Data, gen_instr::Class::Stack, gen_instr::Class::CallRet, gen_instr::Class::Branch],
+                    tier, seed ^ 0x505, 6, 40, true, &mut out),
                 "C06" => gen_instr::gen(&[gen_instr::Class::Data], tier, seed ^ 0x606, 6, 40, &mut out),
                 "C07" => gen_c07::gen(tier, seed, &mut out),
                 "C08" => {
